@@ -425,6 +425,20 @@ H("conn_migrate_oversized_datagram_native", ["C16"], "replay-only", "connection:
   [("x", "u8")], 4, [], ["Connection::migrate", "Connection::poll_transmit", "DatagramState::write"], "native demonstration: a queued datagram that no longer fits after a migration")
 H("conn_first_packet_replay_native", ["C04"], "replay-only", "connection::first_packet_replay_native",
   [("pn", "u8")], 4, [], ["Connection::handle_first_packet", "Connection::handle_event", "Dedup::insert"], "native replay body of E2 query e2_first_packet_dedup")
+H("conn_handle_packet_core_native", ["C04"], "replay-only", "connection::handle_packet_core_native",
+  [("mode", "u8")], 4, [], ["Connection::handle_event", "Connection::handle_packet", "Dedup::insert"], "native replay body of E2 queries e2_handle_packet_core_slice / e2_handle_packet_dedup_closure")
+H("conn_migration_trigger_native", ["C15"], "replay-only", "connection::migration_trigger_native",
+  [("mode", "u8")], 4, [], ["Connection::handle_event", "Connection::process_payload", "Connection::migrate"], "native replay body of E2 slice query e2_migration_trigger_slice")
+H("conn_path_response_native", ["C15", "C07"], "replay-only", "connection::path_response_native",
+  [("mode", "u8")], 4, [], ["Connection::handle_event", "Connection::process_payload"], "native replay body of E2 slice query e2_path_response_slice")
+H("conn_detect_lost_native", ["C12"], "replay-only", "connection::detect_lost_native",
+  [("age_ms", "u16")], 4, [], ["Connection::detect_lost_packets"], "native replay body of E2 slice query e2_detect_lost_iteration_slice")
+H("streams_stop_sending_native", ["C11"], "replay-only", "connection::streams::stop_sending_native",
+  [("state", "u8")], 4, [], ["StreamsState::received_stop_sending", "Send::try_stop", "SendStream::write"], "native replay body of E2 query e2_received_stop_sending")
+H("streams_reset_acked_native", ["C11"], "replay-only", "connection::streams::reset_acked_native",
+  [("reset", "bool")], 4, [], ["StreamsState::reset_acked", "StreamsState::stream_freed"], "native replay body of E2 query e2_reset_acked")
+H("token_cache_take_native", ["C14"], "replay-only", "token_memory_cache::token_cache_take_native",
+  [("n", "u8")], 4, [], ["TokenMemoryCache::insert", "TokenMemoryCache::take"], "native replay body of E2 query e2_token_cache_take")
 H("conn_peer_params_cid_auth_native", ["C14", "C04"], "replay-only", "connection::peer_params_cid_auth_native",
   [("server", "bool"), ("which", "u8")], 4, [], ["Connection::handle_peer_params"], "native replay body of E2 query e2_peer_params_cid_auth")
 
